@@ -111,16 +111,20 @@ def body_mandy(c):
     if th == 0:
         assume(spectra_ok(psi, nmodes, zero_allowed=False))
     if c['variant'] == 'cm':
-        xi = reg.mandy_cm(x.copy(), y.copy(), phi, threshold=th)
+        xi = reg.mandy_cm(x, y, phi, threshold=th)
     else:
-        xi = reg.mandy_fm(x.copy(), y.copy(), phi, threshold=th, add_one=c['add_one'])
+        xi = reg.mandy_fm(x, y, phi, threshold=th, add_one=c['add_one'])
     require_consistent(xi, 'consistent')
     n = list(psi.shape[:-1])
     require(xi.row_dims == n + [d] and xi.col_dims == [1] * (nmodes + 1), 'dims', 'rows %s, expected %s' % (xi.row_dims, n + [d]))
     got = dense.contract(xi.cores).reshape(int(np.prod(n)), d)
     want = (y @ np.linalg.pinv(M, rcond=1e-9 if th else 1e-12)).T
-    cond = sv[0] / sv[sv > 1e-10 * sv[0]].min()
-    close(got, want, 1e-11 * cond * cond + 1e-9, max(np.max(np.abs(want)), 1e-300), 'mandy_value', 'mandy_%s vs (y pinv(Psi))^T' % c['variant'])
+    smin = sv[sv > 1e-10 * sv[0]].min()
+    cond = sv[0] / smin
+    # scale: the size of the solution, but not less than a thousandth of ||y|| ||pinv(Psi)|| (right-hand sides that are
+    # (nearly) orthogonal to the row space have a solution of size ~0, which rounding cannot reproduce relatively)
+    scale = max(np.max(np.abs(want)), 1e-3 * float(np.linalg.norm(y)) / smin, 1e-300)
+    close(got, want, 1e-11 * cond * cond + 1e-9, scale, 'mandy_value', 'mandy_%s vs (y pinv(Psi))^T' % c['variant'])
     lab = {'mandy_' + c['variant']}
     if dup:
         lab.add('duplicated_snapshot')
@@ -165,7 +169,7 @@ def body_kernel(c):
     # either a regular Gram matrix (cond < 1e8) or an exactly rank-deficient one whose non-zero part is well conditioned
     assume(not np.any((sv > 1e-12 * sv[0]) & (sv < 1e-4 * sv[0])))
     singular = bool(np.any(sv <= 1e-12 * sv[0])) or m > M.shape[0]
-    z = reg.mandy_kb(x.copy(), y.copy(), phi)
+    z = reg.mandy_kb(x, y, phi)
     require(isinstance(z, np.ndarray) and z.shape == (c['dy'], m), 'kernel_shape', 'z has shape %s' % (getattr(z, 'shape', None),))
     want = y @ np.linalg.pinv(M) @ M
     close(z @ G, want, 1e-6, max(np.max(np.abs(y)), 1.0), 'kernel_value', 'z G vs y pinv(Psi) Psi (fitted values)')
@@ -235,7 +239,7 @@ def body_arr(c):
     g0 = dense.contract(g.cores).reshape(-1)
     prev = [float(np.linalg.norm(g0 @ M - y[k])) for k in range(c['dy'])]
     for r in range(1, c['repeats'] + 1):
-        sol = reg.arr(x.copy(), y.copy(), phi, g, repeats=r, rcond=1e-13, progress=False)
+        sol = reg.arr(x, y, phi, g, repeats=r, rcond=1e-13, progress=False)
         require(isinstance(sol, list) and len(sol) == c['dy'], 'arr_outputs', '%d solutions for %d output rows' % (len(sol), c['dy']))
         build.require_unchanged(g, snap, 'initial guess of arr')
         res = residuals(sol)
